@@ -78,6 +78,14 @@ func (o *outFile) close() {
 	o.f.Close()
 }
 
+func classNames(m map[string]int) []string {
+	names := make([]string, 0, len(m))
+	for k := range m {
+		names = append(names, k)
+	}
+	return names
+}
+
 func summary(v interface{}) {
 	b, _ := json.Marshal(v)
 	fmt.Printf("SUMMARY %s\n", b)
